@@ -6,7 +6,7 @@
 //@ global W
 //@ fn BitSequenceRG::load
 //@ fn BitSequenceRG::ctor sig=0
-//@ ob rg_load_counts entry=h_rg_load_counts tier=C props=C19,C06 kind=statement unwind=10
+//@ ob rg_load_counts entry=h_rg_load_counts tier=C props=C19,C06,C07 kind=statement unwind=10
 #define VSTREAM_HAVOC_ARRAY_LOAD
 #include "vstream.h"
 //@ structs
